@@ -51,6 +51,13 @@ func extract(repo, leanDir string) {
 		fmt.Fprintln(os.Stderr, err)
 		os.Exit(2)
 	}
+	// oracle_c12 also imports Nv.Gen.C13 (shared queue model): regenerate it too, so a C12-only run never reads a
+	// configuration left behind by a C13 run on another state of the tree
+	text13, _ := c12facts.GenC13(repo)
+	if err := gofacts.WriteIfChanged(filepath.Join(leanDir, "Nv/Gen/C13.lean"), text13); err != nil {
+		fmt.Fprintln(os.Stderr, err)
+		os.Exit(2)
+	}
 	fmt.Println(summary)
 }
 
